@@ -2752,15 +2752,30 @@ pub fn freeze(env: &mut FreezeEnv, expr: &LocExpr) -> NRes<LocExpr> {
                     }
                 }
 
-                let mut env2 = env.clone();
+                // evaluate_for evaluates the clauses up to and including the first iteratee in the
+                // enclosing scope; every pass of an iteration clause then gets a fresh scope. So
+                // freeze those in env, and everything after them in a clone.
+                fn scope<'a>(
+                    inner: &'a mut Option<FreezeEnv>,
+                    outer: &'a mut FreezeEnv,
+                ) -> &'a mut FreezeEnv {
+                    match inner {
+                        Some(e) => e,
+                        None => outer,
+                    }
+                }
+                let mut inner: Option<FreezeEnv> = None;
                 Ok(Expr::For(
                     iteratees
                         .iter()
                         .map(|x| match x {
                             ForIteration::Iteration(ty, lv, expr) => {
-                                // the iteratee is evaluated in the enclosing scope, before the
-                                // clause's names exist (evaluate_for), so freeze it first
-                                let expr = box_freeze(&mut env2, expr)?;
+                                // the iteratee is evaluated before the clause's names exist
+                                let expr = box_freeze(scope(&mut inner, env), expr)?;
+                                if inner.is_none() {
+                                    inner = Some(env.clone());
+                                }
+                                let env2 = scope(&mut inner, env);
 
                                 // have to bind before box_freeze_lvalue so it works
                                 env2.bind(lv.collect_identifiers(
@@ -2772,29 +2787,35 @@ pub fn freeze(env: &mut FreezeEnv, expr: &LocExpr) -> NRes<LocExpr> {
                                 ));
                                 Ok(ForIteration::Iteration(
                                     *ty,
-                                    box_freeze_lvalue(&mut env2, lv)?,
+                                    box_freeze_lvalue(env2, lv)?,
                                     expr,
                                 ))
                             }
-                            ForIteration::Guard(expr) => {
-                                Ok(ForIteration::Guard(box_freeze(&mut env2, expr)?))
-                            }
+                            ForIteration::Guard(expr) => Ok(ForIteration::Guard(box_freeze(
+                                scope(&mut inner, env),
+                                expr,
+                            )?)),
                         })
                         .collect::<NRes<Vec<ForIteration>>>()?,
                     Box::new(match &**body {
-                        ForBody::Execute(b) => ForBody::Execute(freeze(&mut env2, b)?),
-                        ForBody::Yield(b, None) => ForBody::Yield(freeze(&mut env2, b)?, None),
+                        ForBody::Execute(b) => ForBody::Execute(freeze(scope(&mut inner, env), b)?),
+                        ForBody::Yield(b, None) => {
+                            ForBody::Yield(freeze(scope(&mut inner, env), b)?, None)
+                        }
                         // this is technically wrong order
-                        ForBody::Yield(b, Some(s)) => {
-                            ForBody::Yield(freeze(&mut env2, b)?, Some(freeze(&mut env2, s)?))
-                        }
-                        ForBody::YieldItem(kb, vb, None) => {
-                            ForBody::YieldItem(freeze(&mut env2, kb)?, freeze(&mut env2, vb)?, None)
-                        }
+                        ForBody::Yield(b, Some(s)) => ForBody::Yield(
+                            freeze(scope(&mut inner, env), b)?,
+                            Some(freeze(scope(&mut inner, env), s)?),
+                        ),
+                        ForBody::YieldItem(kb, vb, None) => ForBody::YieldItem(
+                            freeze(scope(&mut inner, env), kb)?,
+                            freeze(scope(&mut inner, env), vb)?,
+                            None,
+                        ),
                         ForBody::YieldItem(kb, vb, Some(s)) => ForBody::YieldItem(
-                            freeze(&mut env2, kb)?,
-                            freeze(&mut env2, vb)?,
-                            Some(freeze(&mut env2, s)?),
+                            freeze(scope(&mut inner, env), kb)?,
+                            freeze(scope(&mut inner, env), vb)?,
+                            Some(freeze(scope(&mut inner, env), s)?),
                         ),
                     }),
                 ))
